@@ -150,7 +150,7 @@ def bare_vs_wrapped(ctx):
 
 def run(ctx):
     rng = ctx.subrng("c02")
-    n = ctx.budget(150, 2000)
+    n = ctx.budget(300, 2000)
     maxd = 4 if ctx.tier == "quick" else 6
     for i in range(n):
         if ctx.time_left() < 0:
